@@ -97,17 +97,17 @@ type netFaults struct {
 }
 
 type simNet struct {
-	mu      sync.Mutex
-	start   time.Time
-	socks   map[netip.AddrPort]*simSock
-	outbox  []*datagram
-	pending dgHeap
-	seq     uint64
-	wake    chan struct{}
-	seed    uint64
-	faults  netFaults
+	mu       sync.Mutex
+	start    time.Time
+	socks    map[netip.AddrPort]*simSock
+	outbox   []*datagram
+	pending  dgHeap
+	seq      uint64
+	wake     chan struct{}
+	seed     uint64
+	faults   netFaults
 	faultsOn bool
-	linkIdx map[[2]netip.AddrPort]uint64
+	linkIdx  map[[2]netip.AddrPort]uint64
 	// partitions: set of blocked (from,to) address pairs
 	blocked map[[2]netip.AddrPort]bool
 	// stalled destinations: deliveries held until unstalled
@@ -116,9 +116,9 @@ type simNet struct {
 	// observers see every datagram at send time (before the fate decision)
 	onSend func(d *datagram)
 	// counters of fired faults
-	stats map[string]int
+	stats       map[string]int
 	maxDatagram int
-	log   *journal
+	log         *journal
 }
 
 func newSimNet(seed uint64, j *journal) *simNet {
